@@ -224,6 +224,7 @@ let c19_run c =
      | "jsonbytes" -> let (r, w) = plain ct_json sbytes in out r w (sstr (log_body w)) 0 []
      | "blob" -> let (r, w) = plain (str_of_ascii "application/x-blob") sbytes in out r w (sstr (log_body w)) 0 []
      | "stream" -> let (r, w) = plain (str_of_ascii "application/x-stream") sbytes in out r w (sstr (log_body w)) 0 []
+     | "streamerr" -> let (r, w) = plain (str_of_ascii "application/x-stream") sbytes in out r w (sstr (log_body w)) 1 []
      | "nocontent" -> let r = ctx_no_content r0 in out r (fin r) (sstr []) 0 []
      | "redirect" ->
        let code = if int st >= 300 && int st < 400 then status else z_of_int 301 in
@@ -232,7 +233,8 @@ let c19_run c =
        let r = ctx_http_error sbytes status r0 in
        let r = { r with ctype = Some ct_text } in     (* http.Error sets its own Content-Type *)
        out r (fin r) (sstr (log_body (fin r))) 0 []
-     | "json" | "jsonp" | "xml" ->
+     | "json" | "jsonp" | "xml" | "xmlindent" ->
+       let helper = if helper = "xmlindent" then "xml" else helper in
        let ok = if helper = "xml" then bool encx else bool encj in
        let enc _ = if ok then Some [n_of_int 120] else None in
        let f = match helper with
